@@ -19,19 +19,21 @@ def specificityLess (s o : Spec3) : Bool :=
   else if s.2.2 < o.2.2 then true else if s.2.2 > o.2.2 then false
   else false
 
-/-- `type weight struct { precedence uint8; specificity selector.Specificity }` -/
+/-- `type weight struct { precedence uint8; styleAttr bool; specificity selector.Specificity }` -/
 structure Weight where
   precedence : Nat
+  styleAttr : Bool
   specificity : Spec3
   deriving Repr, DecidableEq
 
 /-- `w == weight{}` -/
-def Weight.isNone (w : Weight) : Bool := w.precedence == 0 && w.specificity == (0, 0, 0)
+def Weight.isNone (w : Weight) : Bool := w.precedence == 0 && !w.styleAttr && w.specificity == (0, 0, 0)
 
 /-- `weight.Less`: true iff w <= other -/
 def Weight.less (w o : Weight) : Bool :=
-  w.precedence < o.precedence ||
-    (w.precedence == o.precedence && (specificityLess w.specificity o.specificity || w.specificity == o.specificity))
+  if w.precedence != o.precedence then w.precedence < o.precedence
+  else if w.styleAttr != o.styleAttr then o.styleAttr
+  else specificityLess w.specificity o.specificity || w.specificity == o.specificity
 
 /-- `declarationPrecedence(origin, importance)` (the table is also dumped from the real function
     into WR/Gen/C03Precedence.lean on every run and compared in Props) -/
@@ -49,7 +51,7 @@ structure WValue where
   val : Nat
   deriving Repr, DecidableEq
 
-def WValue.zero : WValue := ⟨⟨0, (0, 0, 0)⟩, 0⟩
+def WValue.zero : WValue := ⟨⟨0, false, (0, 0, 0)⟩, 0⟩
 
 /-- `if oldWeight.isNone() || oldWeight.Less(we) { style[decl.Name] = ... }` -/
 def insert (style : WValue) (d : WValue) : WValue :=
@@ -61,39 +63,34 @@ def cascade (ds : List WValue) : WValue := ds.foldl insert WValue.zero
 /-- `tree.match{selector, declarations}` = validation.KeyedDeclarations -/
 abbrev Match := List Sel × List Decl
 
-/-- The selector list of a nested rule as PreprocessDeclarationsPrelude builds it: every `&` token
-    becomes `:is(parent)`; if the prelude has no `&` at all, `:is(parent)` + whitespace is put in
-    front of the *prelude* — i.e. of its first selector only. Every other selector without `&`
-    reaches selector.ParseGroup as written (a top-level selector). -/
-def nestSelectorsFrom (parent : List Sel) (hasNesting : Bool) : Bool → List Sel → List Sel
-  | _, [] => []
-  | first, s :: rest =>
-    (if s.amp || (!hasNesting && first) then { s with spec := addSpec (maxSpec parent) s.spec }
-     else { s with ok := s.bare }) :: nestSelectorsFrom parent hasNesting false rest
-
+/-- The selector list of a nested rule as PreprocessDeclarationsPrelude builds it, selector by
+    selector (`pa.SplitOnComma`): every `&` token becomes `:is(parent)`; a selector without `&` gets
+    `:is(parent)` + whitespace in front. Either way selector.ParseGroup sees `:is(parent)` once more
+    than what is written. -/
 def nestSelectors (parent : List Sel) (sels : List Sel) : List Sel :=
-  nestSelectorsFrom parent (sels.any (·.amp)) true sels
+  sels.map fun s =>
+    if s.amp then { s with spec := addSpec (maxSpec parent) s.spec }
+    else { s with spec := addSpec (maxSpec parent) s.spec }
 
-/-! PreprocessDeclarationsPrelude: for each content item — a nested rule appends its own (recursive)
-    result to `out` at once, a declaration is appended to `ownDecls`; after the loop
-    `out = append(out, KeyedDeclarations{selectors, ownDecls})`.  The pair is (out, ownDecls). -/
+/-! PreprocessDeclarationsPrelude: the loop state is (out, ownDecls). A declaration is appended to
+    `ownDecls`; a nested rule first flushes a non-empty `ownDecls` as `KeyedDeclarations{selectors,
+    ownDecls}` (then `ownDecls = nil`) and appends its own (recursive) result; after the loop
+    `out = append(out, KeyedDeclarations{selectors, ownDecls})` unconditionally.
+    `flattenItem` gives what one item appends to `out` and the new `ownDecls`. -/
 mutual
-def flattenItem (sels : List Sel) : Body → List Match × List Decl
-  | .decl d => ([], [d])
+def flattenItem (sels : List Sel) (ownDecls : List Decl) : Body → List Match × List Decl
+  | .decl d => ([], ownDecls ++ [d])
   | .nested ns nb =>
-    let r := flattenBody (nestSelectors sels ns) nb
-    (r.1 ++ [(nestSelectors sels ns, r.2)], [])
-def flattenBody (sels : List Sel) : List Body → List Match × List Decl
-  | [] => ([], [])
+    ((if ownDecls.isEmpty then [] else [(sels, ownDecls)]) ++ flattenBody (nestSelectors sels ns) [] nb, [])
+def flattenBody (sels : List Sel) (ownDecls : List Decl) : List Body → List Match
+  | [] => [(sels, ownDecls)]
   | b :: rest =>
-    let x := flattenItem sels b
-    let r := flattenBody sels rest
-    (x.1 ++ r.1, x.2 ++ r.2)
+    let x := flattenItem sels ownDecls b
+    x.1 ++ flattenBody sels x.2 rest
 end
 
 def preprocessDeclarationsPrelude (sels : List Sel) (body : List Body) : List Match :=
-  let r := flattenBody sels body
-  r.1 ++ [(sels, r.2)]
+  flattenBody sels [] body
 
 /-- `evaluateMediaQuery` -/
 def evaluateMediaQuery : List Medium → Medium → Bool
@@ -142,13 +139,13 @@ def sheetInsertions (sh : Sheet) : List WValue :=
     let specificity := match sh.specificity with
       | some s => s
       | none => r.1
-    r.2.map fun d => ⟨⟨declarationPrecedence sh.origin d.imp, specificity⟩, d.val⟩
+    r.2.map fun d => ⟨⟨declarationPrecedence sh.origin d.imp, false, specificity⟩, d.val⟩
 
-/-- first loop of newStyleFor over findStyleAttributes: the `style` attribute with specificity
-    (1,0,0), then (if enabled) the presentational hints with (0,0,0); origin "author" -/
+/-- first loop of newStyleFor over findStyleAttributes: the `style` attribute (`isStyleAttr`,
+    specificity (1,0,0)), then (if enabled) the presentational hints with (0,0,0); origin "author" -/
 def attrInsertions (doc : Doc) : List WValue :=
-  doc.styleAttr.map (fun d => ⟨⟨declarationPrecedence .author d.imp, (1, 0, 0)⟩, d.val⟩) ++
-    (if doc.hints then doc.hintAttr.map (fun d => ⟨⟨declarationPrecedence .author d.imp, (0, 0, 0)⟩, d.val⟩) else [])
+  doc.styleAttr.map (fun d => ⟨⟨declarationPrecedence .author d.imp, true, (1, 0, 0)⟩, d.val⟩) ++
+    (if doc.hints then doc.hintAttr.map (fun d => ⟨⟨declarationPrecedence .author d.imp, false, (0, 0, 0)⟩, d.val⟩) else [])
 
 /-- findStylesheets: `<style>`/`<link>` whose media attribute matches, in document order -/
 def findStylesheets (doc : Doc) : List (List Match) :=
